@@ -9,6 +9,58 @@ ENGINE_NOTE = ("Lean kernel; axioms propext/Classical.choice/Quot.sound; the eng
                "Lean driver and an independent naive least-model oracle; rustc, syn/quote, hash maps (C19), petgraph (validated by validOrder) and the "
                "evaluation of embedded Rust expressions (theorems hold for every interpretation) are modelled, not verified.")
 CLAIMS = {
+ "C11": dict(
+   engine="tie-B-engine",
+   technique="Lean 4 proof that the least model of the explicit-closure twin restricted to t is the (per-key) transitive closure of the inserted tuples + "
+             "Lean 4 simulation proof of the binary trrel provider model against its set-level contract + compiled-program (tie B) and op-history (tie C) correspondence",
+   text="Lean 4 theorems: for every rule program, input and key, the least model of `rules + t(x,z) <-- t(x,y), t(y,z)` holds in t exactly the transitive "
+        "closure of the tuples inserted by the input and the other rules, incl. (x,x) on cycles (twin_closure_bin/tern, twin_cycle_reflexive_*, rule form = "
+        "path form), hence so does the engine model on the twin (engine_twin_closure_*, via C01). For the binary provider (TrRelIndCommon) every history of "
+        "head updates and merges keeps new/delta/total equal to the set-level contract total'=total+delta, delta'=(new + {x!=y connected}) - total' "
+        "(provider_contract_bin, views view0/1/None_spec); this equals the closure contract on acyclic inputs and differs by the derived (x,x) otherwise - "
+        "finding F7, kernel-checked witness. The ternary provider is PARTIAL: model tied by correspondence only; its delta views [1],[2],[1,2] lose tuples "
+        "(F23, kernel-checked witnesses) and len_estimate of view [1,2] divides by zero on a key-less version (F24). Tie B: generated programs with one "
+        "trrel relation (binary/ternary, static / scheduled-arrival / demand-driven recursion, several keys with pauses, every access pattern read inside and "
+        "outside the stratum) compiled and compared with the Lean engine model and the naive oracle on the twin; tie C: exhaustive and PRNG op histories on "
+        "the real provider types through the traits generated code uses vs the Lean model vs an independent closure oracle. F7/F23/F24 are attributed only "
+        "inside their class predicates and only when the output is what the defect explains.",
+   design_ref="DESIGN.md §8 C11",
+   note=ENGINE_NOTE + " Provider model (Model/TrRelInd.lean) hand-written after trrel_binary_ind.rs / binary_rel.rs / trrel_ternary_ind.rs / utils.rs; hash "
+        "collections, iteration order, f32 sqrt and the merge loop's termination are modelled, not verified."),
+ "C10": dict(
+   engine="tie-B-engine",
+   technique="Lean 4 theorems (least model of the explicit-closure twin = equivalence closure; binary eqrel provider meets its new/delta/total contract for every op "
+             "sequence) + compiled-program correspondence against the twin (tie B) + provider op-sequence correspondence (tie C)",
+   text="Lean 4 theorems: for EVERY program, interpretation and input, the least model of the explicit-closure twin restricted to the tagged relation is exactly "
+        "the equivalence closure (reflexive on mentioned elements, symmetric, transitive; per key for r(K,T,T)) of the tuples the other rules insert "
+        "(eqrel_twin_binary, eqrel_twin_ternary). For the BINARY provider (model of union_find.rs EqRel + eqrel_ind.rs EqRelIndCommon, serial and parallel "
+        "types tied to it): every history of inserts into `new` and merges runs without panic and keeps total = T, delta = D \\ T, D := closure(D u N) "
+        "(provider_run_contract, provider_all_inserted); contains_key / index_get / iter_all of every view read exactly the content, except iter_all of view "
+        "[0], which is proved to yield total u delta on delta (provider_iter_all_0_overapprox). Tied by compiled programs with the tagged relation in head and "
+        "body positions, non-recursive and recursive strata (facts arriving one per iteration, several keys, keys pausing and resuming), every access "
+        "pattern bound by probes / constants / two-clause joins in both directions, serial and ascent_par!, compared with the explicit-closure twin under "
+        "the Lean engine model and the naive oracle; and by exhaustive + random provider op sequences. The TERNARY provider is NOT correct: known findings "
+        "F6 (merge drops per-key delta), F21 (merged twice per iteration: delta always empty), F22 (view [1,2] iter_all yields tuples outside the relation), "
+        "F13 (index [2] does not compile); F20: parallel binary full-index read does not compile. Failures are attributed to them only inside coded class "
+        "predicates with the finding's signature.",
+   design_ref="DESIGN.md §8 C10",
+   note=ENGINE_NOTE + " Provider model hand-written statement by statement, tied by op-history diffing through the traits generated code calls; "
+        "hashbrown collections, Rc sharing and the Mutex are modelled as values; parallel interleavings exercised, not proved; ternary provider not modelled."),
+ "C15": dict(
+   engine="tie-A-macro",
+   technique="Lean 4 theorems over a model of the macro front end's static checks (each ill-formedness class is rejected at any position; accepted <-> well-formed core) "
+             "+ outcome-by-outcome correspondence with the real macro pipeline run in process (tie A) and under rustc (tie B, thorough)",
+   text="Model Check.check of the macro front end's static checks (parse-level, macro expansion with the depth budget, HIR shadowing/undefined/arity, attributes, ds on "
+        "lattice, MIR stratification, the reachable code-generation panics) is tied outcome-by-outcome to the real pipeline on ~8k (quick) / ~35k (thorough) generated "
+        "programs per run (one planted violation at every position, two-violation programs, token corruptions, well-formed controls) under all four macros and "
+        "ascent_source!; Lean theorems: for each violation class IllFormed_K -> rejected for a violation at any position, WellFormedCore <-> check = ok, the model's "
+        "stratification test is equivalent to the declarative condition (two rules on a dependency cycle lie in one SCC), every macro reaching itself from an invocation "
+        "is rejected for any budget, leftover-panic sites unreachable and the code-generation panics characterised exactly. The thorough tier compiles ~285 programs "
+        "with rustc (the diagnostic must point into the program). Every full-strength statement that is false of the real code has a decide-d witness and a known "
+        "finding (FM1-FM11: accepted ill-formed programs, macro panics, eager exponential expansion, spurious rejections).",
+   design_ref="DESIGN.md §8 C15",
+   note="Lean kernel; axioms propext/Classical.choice/Quot.sound; trusted: the text->summary printer of the generator, syn, rustc diagnostics, in-process spans "
+        "(span-dependent cases go to rustc in the thorough tier); FM3 (token level) and FM11 (span-dependent hygiene) are not modelled."),
  "C12": dict(
    engine="tie-B-engine",
    technique="Lean 4 theorems (explicit-closure twin = reflexive transitive closure of the inserted tuples, all programs) + bug-faithful Lean models of the "
@@ -202,7 +254,7 @@ def main():
         "version": 1,
         "setup_cmd": "./setup.sh",
         "hooks": {
-            "guard": "cargo feature verif-hooks (crates ascent, ascent-byods-rels)",
+            "guard": "cargo feature verif-hooks (crates ascent, ascent_macro, ascent-byods-rels)",
             "enable": "harness crates depend on /repo by path with features=[\"verif-hooks\"]; cargo test -p ascent_macro --features verif-hooks for the in-process macro driver",
             "baseline_off_cmd": "cd /repo && cargo test --workspace --no-fail-fast --offline",
             "source_commits": HOOK_COMMITS,
@@ -212,6 +264,7 @@ def main():
             {"name": "lean-model", "path": "lean/", "serves_properties": sorted(CLAIMS), "kind_free_text": "Lean 4 model, specs and theorems (lake project, core Lean; proofs may import single Mathlib modules)"},
             {"name": "tie-B-engine", "path": "harness/engine", "serves_properties": [p for p in sorted(CLAIMS) if CLAIMS[p]["engine"] == "tie-B-engine"], "kind_free_text": "generated Ascent programs compiled by rustc against /repo (several binaries) + Lean engine driver + naive oracle; outputs diffed"},
             {"name": "tie-C-ds", "path": "harness/ds", "serves_properties": [p for p in sorted(CLAIMS) if CLAIMS[p]["engine"] == "tie-C-ds"], "kind_free_text": "Rust op-sequence harness linking the real ascent crates + Lean driver executable; outputs diffed"},
+            {"name": "tie-A-macro", "path": "tools/vlib/tiea.py", "serves_properties": sorted(set([p for p in CLAIMS if CLAIMS[p]["engine"] == "tie-A-macro"] + ["C01"])), "kind_free_text": "generated programs fed in process to the real macro pipeline (hook test verif_driver in ascent_macro, feature verif-hooks): outcome / MIR plan summary diffed against the Lean model"},
         ],
         "checks": checks,
         "not_applicable": na,
@@ -219,6 +272,6 @@ def main():
     }
     json.dump(m, open(os.path.join(V, "MANIFEST.json"), "w"), indent=1)
 
-HOOK_COMMITS = ["a8c1e7a", "86ba386"]
+HOOK_COMMITS = ["a8c1e7a", "86ba386", "5c8fcf4", "f309c9e"]
 if __name__ == "__main__":
     main()
